@@ -161,6 +161,12 @@ def _install():
             if os.environ.get("TESTREC_PURITY", "1") == "1":
                 _STATE["procs"].append((self, _fp(self), _STATE["test"]))
                 _session_event(_opname(), True)
+            if os.environ.get("TESTREC_TEXTS", "0") == "1":
+                try:
+                    dg = hashlib.sha1(str(self).encode()).hexdigest()[:12]
+                except Exception as e:
+                    dg = "E:" + type(e).__name__
+                _STATE.setdefault("texts", []).append(dg)
             if _provenance_eq_Procedure is not None:
                 try:
                     _record_edge(_provenance_eq_Procedure, self, _mod_config)
@@ -231,6 +237,11 @@ def _imports_session():
 if _OUT:
     import pytest
 
+    if int(os.environ.get("TESTREC_SYM_OFFSET", "0")) > 0:
+        from exo.core.prelude import Sym as _Sym
+        for _k in range(int(os.environ["TESTREC_SYM_OFFSET"])):
+            _Sym(f"dummy{_k}")
+
     _install()
 
     _CLAIMS = []
@@ -256,6 +267,8 @@ if _OUT:
 
     @pytest.hookimpl(trylast=True)
     def pytest_runtest_teardown(item, nextitem):
+        if _STATE.get("texts"):
+            _emit({"kind": "texts", "test": item.nodeid, "digests": _STATE.pop("texts")})
         _session_close()
         _STATE["procs"] = [t for t in _STATE["procs"] if t[2] == "?"]
         _STATE["test"] = "?"
@@ -289,7 +302,7 @@ THOROUGH_FILES = QUICK_FILES + ["tests/test_halide_ops.py", "tests/test_range_an
 
 
 def run_tests(files, workdir, repo=None, cap=6, timeout=1500, fwd=True, units=True, purity=True, max_cells=600,
-              edits=False, claims=False, trace_ops=""):
+              edits=False, claims=False, trace_ops="", texts=False, extra_env=None):
     """Run each test file (optionally split into shards by -k-less item slicing) under the recorder.
     -> (records, per-file info)."""
     from .common import NCPU, REPO, MachineryError
@@ -305,7 +318,9 @@ def run_tests(files, workdir, repo=None, cap=6, timeout=1500, fwd=True, units=Tr
         env.update({"TESTREC_OUT": out, "TESTREC_CAP": str(cap), "TESTREC_FWD": "1" if fwd else "0",
                     "TESTREC_UNITS": "1" if units else "0", "TESTREC_PURITY": "1" if purity else "0",
                     "TESTREC_MAX_CELLS": str(max_cells), "TESTREC_EDITS": "1" if edits else "0",
-                    "TESTREC_CLAIMS": "1" if claims else "0", "TESTREC_TRACE_OPS": trace_ops})
+                    "TESTREC_CLAIMS": "1" if claims else "0", "TESTREC_TRACE_OPS": trace_ops,
+                    "TESTREC_TEXTS": "1" if texts else "0"})
+        env.update(extra_env or {})
         env.pop("PYTEST_ADDOPTS", None)
         cmd = [sys.executable, "-m", "pytest", "-q", "-x" if False else "-q", "-p", "no:cacheprovider",
                "-p", "harness.testrec", "--timeout=900", "-o", "addopts=", f]
